@@ -186,6 +186,8 @@ def jobs(tier):
     out.append({"name": "natural", "kind": "natural", "tier": tier})
     for variant in VARIANTS:
         out.append({"name": "loadback/%s" % variant, "kind": "loadback", "variant": variant, "tier": tier})
+    for fmt in (FORMATS if tier == "thorough" else ["json", "pickle"]):
+        out.append({"name": "keyfile-history/%s" % fmt, "kind": "keyfile-history", "fmt": fmt, "tier": tier})
     return out
 
 
@@ -360,6 +362,8 @@ def run_job(job, ctx):
         _loadback(job, ctx)
     elif job["kind"] == "inject":
         _inject(job, ctx)
+    elif job["kind"] == "keyfile-history":
+        _keyfile_history(job, ctx)
     elif job.get("only") and job["only"][0] == "history":
         _histories(job, ctx, build())
     else:
@@ -575,6 +579,71 @@ def _safe_dumps(cfg, fmt):
         return cfg.dumps(fmt)
     except Exception:  # noqa
         return None
+
+
+def _keyfile_history(job, ctx):
+    """every sequence (<= 6 steps, 7 in the thorough tier, ending in a save) over {save, the key file is truncated, the key file is restored, the
+    key file is replaced by another valid key} on one configuration object holding secrets and one destination:
+    a save under an unusable key file fails and leaves the destination alone; every other save returns, writes what was
+    serialised, and the file loads back equal in a fresh configuration that reads the key file as it is at that moment"""
+    import itertools
+    import cincoconfig as cc
+    tmp = ctx.tmp
+    only = job.get("only")
+    fmt = job["fmt"]
+    schema = build()
+    K1, K2 = bytes(range(32)), bytes(range(100, 132))
+    key = os.path.join(tmp, "kh.key")
+    steps = ["save", "break", "restore", "rotate"]
+    for n in range(1, (7 if job.get("tier") == "thorough" else 6) + 1):
+        for seq in itertools.product(steps, repeat=n):
+            if seq[-1] != "save":
+                continue
+            if only is not None and only != ["keyfile-history", list(seq)]:
+                continue
+            with open(key, "wb") as fh:
+                fh.write(K1)
+            cfg = cc.Config(schema, key_filename=key)
+            cfg.load_tree(_copy(STATES["secrets"]))
+            cfg.items = [{"c": 1, "s": "item-secret"}]
+            dest = os.path.join(tmp, "kh.cfg")
+            if os.path.exists(dest):
+                os.unlink(dest)
+            usable, ok = True, True
+            case = _case(job, ["keyfile-history", list(seq)])
+
+            def bad(what, msg):
+                ctx.violation("C19|keyfile-history|%s|%s" % (fmt, what), "sequence %s: %s" % (list(seq), msg), case, size=n)
+            for i, st in enumerate(seq):
+                if st != "save":
+                    with open(key, "wb") as fh:
+                        fh.write(K1[:7] if st == "break" else (K1 if st == "restore" else K2))
+                    usable = st != "break"
+                    continue
+                before = file_id(dest)
+                raised, log, names, captured = attempt_save(cfg, dest, fmt)
+                ctx.transitions += 1
+                if not usable:
+                    if raised is None:
+                        ok = False; bad("saved-with-unusable-key", "step %d: the save returned although the key file holds 7 bytes" % i)
+                    else:
+                        judge_failure(ctx, lambda w, m: bad(w, "step %d: %s" % (i, m)), dest, before, raised, log)
+                    continue
+                if raised is not None:
+                    ok = False; bad("raised", "step %d: the save raised %r although the key file is valid" % (i, raised)); break
+                got = file_id(dest)
+                if got is None or got[0] != captured:
+                    ok = False; bad("written-differs-from-serialised", "step %d: the destination does not hold the bytes serialised by that call" % i); break
+                fresh = cc.Config(schema, key_filename=key)
+                try:
+                    fresh.load(dest, fmt)
+                    if V.plain(_norm(cc.asdict(fresh))) != V.plain(_norm(cc.asdict(cfg))):
+                        ok = False; bad("load-back-differs", "step %d: the saved file loads back as %s, saved from %s" % (i, V.show(cc.asdict(fresh), 160), V.show(cc.asdict(cfg), 160))); break
+                except Exception as exc:  # noqa
+                    ok = False; bad("load-back-raises", "step %d: loading the saved file under the current key file raised %r" % (i, exc)); break
+            ctx.case(("keyfile-history", fmt, seq), "keyfile-history:%d:%s" % (n, "ok" if ok else "bad"), n > 1)
+            ctx.states += 1
+    ctx.traces += 1
 
 
 NATURAL = [
